@@ -40,22 +40,30 @@ package atree
 //@      (is(s, *MapMetaDataSlab) ==> fkS(s) == fkS(sto[as(s, *MapMetaDataSlab).childrenHeaders[0].slabID]))
 
 //@ iface elementGroup.Elements(storage) (es, err)
+//@   conform all
+//@   serves C13
 //@   ensures err == nil ==> es == gElems(recv) && es != nil
 //@   ensures err != nil ==> es == nil && categorised(err)
 //@   pure
 
 //@ iface element.getElementAndNextKey(storage, digester, level, hkey, comparator, key) (k, v, nk, err)
+//@   conform all
+//@   serves C13
 //@   ensures err == nil ==> nk == nkIn(recv, key)
 //@   ensures err == nil && is(recv, *singleElement) ==> nk == nil && k == as(recv, *singleElement).key && v == as(recv, *singleElement).value
 //@   ensures err != nil ==> k == nil && v == nil && nk == nil
 //@   pure
 
 //@ iface elements.getElementAndNextKey(storage, digester, level, hkey, comparator, key) (k, v, nk, err)
+//@   conform all
+//@   serves C13
 //@   ensures err == nil ==> nk == nkIn(recv, key)
 //@   ensures err != nil ==> k == nil && v == nil && nk == nil
 //@   pure
 
 //@ iface MapSlab.getElementAndNextKey(storage, digester, level, hkey, comparator, key) (k, v, nk, err)
+//@   conform all
+//@   serves C13
 //@   ensures err == nil ==> nk == nkIn(recv, key)
 //@   ensures err != nil ==> k == nil && v == nil && nk == nil
 //@   pure
@@ -139,10 +147,13 @@ package atree
 //@ # ---- iterator steps
 
 //@ # mutable iterator: the cursor is the next key; a step replaces it by the successor reported by the map; an error leaves it alone
-//@ func (m *OrderedMap) getElementAndNextKey(comparator, hip, key) (k, v, nk, err)  serves C13 C18
-//@   trusted "composition of digest computation, root dispatch and child-callback registration; the hand-off itself is verified on the slab and element functions"
+//@ func (m *OrderedMap) getElementAndNextKey(comparator, hip, key) (k, v, nk, err)  serves C10 C13 C18
+//@   requires m.Storage != nil && m.root != nil && m.digesterBuilder != nil && hip != nil && comparator != nil && key != nil
 //@   ensures err != nil ==> k == nil && v == nil && nk == nil
-//@   modifies OrderedMap.parentUpdater, Array.parentUpdater, alloc
+//@   # the child found under the key is registered with the inline limit of a value stored under THAT key (C10: the updater's
+//@   # "nothing to do" shortcut compares the child's size with this limit)
+//@   before[C10] OrderedMap.setCallbackWithChild: maxInlineSize == maxInlineMapElementSize - bs(keyStorable) - 1
+//@   modifies OrderedMap.parentUpdater, Array.parentUpdater, basicDigester.circleHash64, basicDigester.blake3Hash, basicDigester.msg, basicDigester.scratch, alloc
 
 //@ func (m *OrderedMap) getNextKey(comparator, hip, key) (nk, err)  serves C13 C18
 //@   trusted "composition of digest computation and root dispatch; the hand-off itself is verified on the slab and element functions"
@@ -174,10 +185,14 @@ package atree
 //@ pred elemAt(es elements, k int) = ite(is(es, *hkeyElements), as(es, *hkeyElements).elems[k], iface(as(es, *singleElements).elems[k]))
 
 //@ iface elements.Count() (n)
+//@   conform all
+//@   serves C13
 //@   ensures n == ecnt(recv)
 //@   pure
 
 //@ iface elements.Element(k) (el, err)
+//@   conform all
+//@   serves C13
 //@   ensures k < ecnt(recv) ==> err == nil && el == elemAt(recv, k)
 //@   ensures k >= ecnt(recv) ==> err != nil && el == nil && isUser(err)
 //@   pure
